@@ -666,6 +666,9 @@ def sym_sorted(it, elems, keyf, reverse):
     it.assume(z3.Distinct(pos))
     for p in range(n):      # (redundant, helps pruning: every result element is one of the inputs)
         it.assume(z3.Or([(res[p].t == elems[i].t) if is_item else (res[p].t == term_of(elems[i])) for i in range(n)]))
+    if not hasattr(it, "sorted_log"):
+        it.sorted_log = []
+    it.sorted_log.append(([str(term_of(e)) if not is_item else str(e.t) for e in elems], [str(r.t) for r in res]))
     rkeys = [keyf(r) for r in res]      # evaluated AFTER the permutation facts, so that e.g. an index key is known to be in range
     for p in range(n - 1):
         a, b = term_of(rkeys[p]), term_of(rkeys[p + 1])
